@@ -273,7 +273,7 @@ fn fam_document(_t: Tier) -> BoxedStrategy<Case> {
 }
 
 fn fam_embedded(_t: Tier) -> BoxedStrategy<Case> {
-    (vec(node(), 0..5), vec(attr(), 0..3), any::<u8>(), 0u8..6, gen::cfg_benign())
+    (vec(node(), 0..5), vec(attr(), 0..3), any::<u8>(), 0u8..8, gen::cfg_benign())
         .prop_map(|(kids, ra, ws, place, cfg)| {
             let sub = ns_root(kids, dedup(ra), ws, true);
             let doc = match place {
@@ -282,9 +282,39 @@ fn fam_embedded(_t: Tier) -> BoxedStrategy<Case> {
                 2 => format!("<svg><g id=\"grp\" transform=\"translate(3 4)\"><rect wh=\"5\"/>{sub}</g><rect xy=\"#grp|v\" wh=\"2\"/></svg>"),
                 3 => format!("<rect wh=\"5\"/>\n{sub}\n<rect xy=\"^|h\" wh=\"5\"/>"),
                 4 => format!("<svg><defs>{sub}</defs><rect wh=\"5\"/></svg>"),
+                // defaults that would match an <svg> element are in scope: the pass-through subtree is not an svgdx element
+                6 => format!("<svg><defaults><svg fill=\"red\" class=\"k\" data-d=\"1\"/><rect rx=\"2\"/><_ stroke=\"blue\"/></defaults>{sub}<rect wh=\"3\"/></svg>"),
+                7 => format!("<svg><defaults><svg match=\"*\" opacity=\"0.5\"/></defaults><g>{sub}</g></svg>"),
                 _ => format!("<svg><var v=\"7\"/><if test=\"1\">{sub}</if><rect wh=\"$v\"/></svg>"),
             };
             Case { input: doc, cfg, embedded: true }
+        })
+        .boxed()
+}
+
+/// documents whose DOCTYPE declares general entities that attribute values and text then refer to
+fn fam_entities(_t: Tier) -> BoxedStrategy<Case> {
+    (any::<u8>(), any::<u8>(), gen::cfg_benign())
+        .prop_map(|(m, k, cfg)| {
+            let root_attr = if m & 1 != 0 { " data-tone=\"&ink;\"" } else { "" };
+            let mut body = String::new();
+            if m & 2 != 0 {
+                body.push_str("  <rect x=\"1\" y=\"1\" width=\"8\" height=\"8\" stroke=\"&ink;\" fill=\"none\"/>\n");
+            }
+            if m & 4 != 0 {
+                body.push_str("  <text x=\"12\" y=\"6\" fill=\"&ink;\">a &amp; &lbl; b</text>\n");
+            }
+            if m & 8 != 0 {
+                body.push_str("  <g id=\"g&num;\"><title>&lbl;</title><circle r=\"&num;\" class=\"c &lbl;\"/></g>\n");
+            }
+            if m & 16 != 0 {
+                body.push_str("  <desc>&lbl;&lbl; &#38; &lt;</desc>\n");
+            }
+            let decl = if k % 2 == 0 { "<?xml version=\"1.0\"?>\n" } else { "" };
+            let input = format!(
+                "{decl}<!DOCTYPE svg [\n  <!ENTITY ink \"#204060\">\n  <!ENTITY lbl \"hello\">\n  <!ENTITY num \"7\">\n]>\n<svg xmlns=\"{SVG_NS}\" viewBox=\"0 0 20 10\"{root_attr}>\n{body}</svg>"
+            );
+            Case { input, cfg, embedded: false }
         })
         .boxed()
 }
@@ -452,6 +482,7 @@ impl Property for C03 {
         vec![
             Family::random("document", tier.n(48_000, 250_000), fam_document),
             Family::random("embedded", tier.n(16_000, 80_000), fam_embedded),
+            Family::random("doctype-entities", tier.n(600, 3_000), fam_entities),
             Family::fixed("corpus", corpus_cases()),
         ]
     }
